@@ -222,6 +222,8 @@ var c10SkelFns = []c10SkelFn{
 	{"c10SkelCompose", c10DirComposite + "composition_pt.go", "PTComposer", "Compose", c10SkelOpt{drop: c10ComposeDrop}},
 	{"c10SkelToXRPatchesFromTAs", c10DirComposite + "composition_pt.go", "", "toXRPatchesFromTAs", c10SkelOpt{}},
 	{"c10SkelFilterPatches", c10DirComposite + "composition_pt.go", "", "filterPatches", c10SkelOpt{rets: true}},
+	// internal/names (the name generator Compose calls through c.composed.GenerateName)
+	{"c10SkelGenerateName", "internal/names/generate.go", "nameGenerator", "GenerateName", c10SkelOpt{rets: true}},
 	// apis/apiextensions/v1
 	{"c10SkelPatchGetType", c10DirAPI + "composition_patches.go", "Patch", "GetType", c10SkelOpt{rets: true}},
 	{"c10SkelMathGetType", c10DirAPI + "composition_transforms.go", "MathTransform", "GetType", c10SkelOpt{rets: true}},
